@@ -15,6 +15,7 @@ var gens = map[string]func(props.Ctx) *report.Report{
 	"C01": props.C01,
 	"C02": props.C02,
 	"C03": props.C03,
+	"C12": props.C12,
 	"C15": props.C15,
 	"CALC": props.CalcAll,
 	"HIST": props.HistAll,
